@@ -48,3 +48,58 @@ package tms20
 //@   panics[C14,C15,C06] hasKey(tms.TileMatrices, tmID) && len(tmOf(tms, tmID).VariableMatrixWidths) != 0
 //@   ensures[C14,C15] (err != nil) == (!hasKey(tms.TileMatrices, tmID) || xyErr(tms))
 //@   ensures[C15,C03] err == nil ==> bottomLeft == bboxBL(tms, tmID) && topRight == bboxTR(tms, tmID)
+
+// C15: tile addressing. tileX/tileY: the (real) tile coordinates of a point, in x,y order.
+//@ macro tileSizeX(tms, z) = real(tmOf(tms, z).TileWidth) * tmOf(tms, z).CellSize
+//@ macro tileSizeY(tms, z) = real(tmOf(tms, z).TileHeight) * tmOf(tms, z).CellSize
+//@ macro tileXr(tms, z, pt) = (pt[0] - originXY(tms, z)[0]) / tileSizeX(tms, z)
+//@ macro tileYr(tms, z, pt) = ite(isBottomLeft(tms, z), (pt[1] - originXY(tms, z)[1]) / tileSizeY(tms, z), (originXY(tms, z)[1] - pt[1]) / tileSizeY(tms, z))
+//@ macro addressable(tms, z) = hasKey(tms.TileMatrices, z) ==> !isNil(tmOf(tms, z).PointOfOrigin) && tmOf(tms, z).CellSize > 0
+//@     && tmOf(tms, z).TileWidth >= 1 && tmOf(tms, z).TileHeight >= 1
+// FromNative: no tile for a missing matrix or a point outside the matrix; otherwise the tile containing the point.
+// (Points more than 9e18 tiles to the right of / beyond the origin are excluded: uint(x) of such a float64 is
+// implementation-defined in Go, and on amd64 it wraps to small tile numbers.)
+//@ func (*TileMatrixSet).FromNative
+//@   prelude arith tmsaxis
+//@   requires zoom <= 1000000 && addressable(tms, zoom)
+//@   requires tileXr(tms, zoom, pt) < 9000000000000000000 && tileYr(tms, zoom, pt) < 9000000000000000000
+//@   panics[C15] hasKey(tms.TileMatrices, zoom) && (len(tmOf(tms, zoom).VariableMatrixWidths) != 0 || xyErr(tms))
+//@   ensures[C15] result1 == (hasKey(tms.TileMatrices, zoom)
+//@       && 0 <= tileXr(tms, zoom, pt) && tileXr(tms, zoom, pt) < real(tmOf(tms, zoom).MatrixWidth)
+//@       && 0 <= tileYr(tms, zoom, pt) && tileYr(tms, zoom, pt) < real(tmOf(tms, zoom).MatrixHeight))
+//@   ensures[C15] result1 ==> result0 != nil && result0.Z == zoom && result0.X == trunc(tileXr(tms, zoom, pt)) && result0.Y == trunc(tileYr(tms, zoom, pt))
+//@   ensures[C15] !result1 ==> result0 == nil
+
+// ToNative: the native top-left corner of a tile (tiles one past the last column / row are allowed: they give the
+// far corners of the matrix), rounded to 9 decimals.
+//@ macro cornerOf(tms, z, tx, ty) = arr(round9(originXY(tms, z)[0] + real(tx) * tileSizeX(tms, z)),
+//@     ite(isBottomLeft(tms, z), round9(originXY(tms, z)[1] + real(ty + 1) * tileSizeY(tms, z)), round9(originXY(tms, z)[1] - real(ty) * tileSizeY(tms, z))))
+//@ func (*TileMatrixSet).ToNative
+//@   prelude arith tmsaxis
+//@   requires tile.Z <= 1000000 && tile.Y <= 9000000000000000000 && addressable(tms, tile.Z)
+//@   panics[C15] hasKey(tms.TileMatrices, tile.Z) && tile.X <= tmOf(tms, tile.Z).MatrixWidth && tile.Y <= tmOf(tms, tile.Z).MatrixHeight && xyErr(tms)
+//@   ensures[C15] result1 == (hasKey(tms.TileMatrices, tile.Z) && tile.X <= tmOf(tms, tile.Z).MatrixWidth && tile.Y <= tmOf(tms, tile.Z).MatrixHeight)
+//@   ensures[C15] result1 ==> result0 == cornerOf(tms, tile.Z, tile.X, tile.Y)
+
+// C15, property level (over the two contracts above): a point at least 1e-9 inside a tile is addressed to that tile.
+//@ lemma tileRoundTrip(tms S_tms20_TileMatrixSet, z Int, tx Int, ty Int, pt A2_Real)
+//@   prelude arith tmsaxis
+//@   requires hasKey(tms.TileMatrices, z) && addressable(tms, z) && !isBottomLeft(tms, z)
+//@   requires 0 <= tx && tx < tmOf(tms, z).MatrixWidth && 0 <= ty && ty < tmOf(tms, z).MatrixHeight
+//@   requires cornerOf(tms, z, tx, ty)[0] + 0.000000001 <= pt[0] && pt[0] <= cornerOf(tms, z, tx + 1, ty)[0] - 0.000000001
+//@   requires cornerOf(tms, z, tx, ty + 1)[1] + 0.000000001 <= pt[1] && pt[1] <= cornerOf(tms, z, tx, ty)[1] - 0.000000001
+//@   ensures[C15] 0 <= tileXr(tms, z, pt) && tileXr(tms, z, pt) < real(tmOf(tms, z).MatrixWidth) && trunc(tileXr(tms, z, pt)) == tx
+//@   ensures[C15] 0 <= tileYr(tms, z, pt) && tileYr(tms, z, pt) < real(tmOf(tms, z).MatrixHeight) && trunc(tileYr(tms, z, pt)) == ty
+//@ lemma tileRoundTripBL(tms S_tms20_TileMatrixSet, z Int, tx Int, ty Int, pt A2_Real)
+//@   prelude arith tmsaxis
+//@   requires hasKey(tms.TileMatrices, z) && addressable(tms, z) && isBottomLeft(tms, z)
+//@   requires 0 <= tx && tx < tmOf(tms, z).MatrixWidth && 0 <= ty && ty < tmOf(tms, z).MatrixHeight
+//@   requires cornerOf(tms, z, tx, ty)[0] + 0.000000001 <= pt[0] && pt[0] <= cornerOf(tms, z, tx + 1, ty)[0] - 0.000000001
+//@   requires cornerOf(tms, z, tx, ty - 1)[1] + 0.000000001 <= pt[1] && pt[1] <= cornerOf(tms, z, tx, ty)[1] - 0.000000001
+//@   ensures[C15] 0 <= tileXr(tms, z, pt) && tileXr(tms, z, pt) < real(tmOf(tms, z).MatrixWidth) && trunc(tileXr(tms, z, pt)) == tx
+//@   ensures[C15] 0 <= tileYr(tms, z, pt) && tileYr(tms, z, pt) < real(tmOf(tms, z).MatrixHeight) && trunc(tileYr(tms, z, pt)) == ty
+
+// C15, not decided here: "the bounding box spans exactly from the corner of tile (0,0) to the corner of tile
+// (width,height)". Both are given by the formulas above (bboxBL/bboxTR and cornerOf); they differ by double rounding
+// (round9(o + round9(s)) versus round9(o + s)), which is the same value unless s*1e9 is an exact tie k + 1/2 and the
+// origin is on the 1e-9 grid; the solvers did not prove that identity (mixed to_int reasoning) within the time limit.
